@@ -13,7 +13,8 @@ code -> spec: seeded random pools over random (deeper) statements, recorded and 
 
 Generator exclusions (the property is silent on them; they belong to other properties):
   * predicates combining two origins with and / or, where / having predicates over two origins, bare boolean columns
-    used as predicates: they crash the parser whatever is advertised (Factors.merge / push-down, C06 / C14);
+    used as predicates, negated null tests: they crash the parser whatever is advertised (Factors.merge / push-down /
+    python `not` on a sqlalchemy clause, C06 / C14);
   * no two catalog entries of one statement differ only in literal values (Equal.__bool__ compares hashes, C08), and
     the near-miss sources differ structurally (join kind, reference name, table, set kind, row limit) - asserted here.
 """
@@ -66,24 +67,50 @@ def subsources(stmt):
 
 
 def _origins(feature):
-    return {g.canon(n['src']) for _, n in g.walk(feature) if g.is_feature(n) and n['f'] == 'col'}
+    """Origins of the columns a feature is made of (the features inside those origins do not count)."""
+    if feature['f'] == 'col':
+        return {g.canon(feature['src'])}
+    out = set()
+    for arg in feature['args']:
+        out |= _origins(arg)
+    return out
+
+
+def _features(stmt):
+    """(clause, feature) for every clause feature of every query / join of a statement, at any nesting level."""
+    for _, node in g.walk(stmt):
+        if g.is_source(node) and node['t'] in ('query', 'join'):
+            for clause in ('where', 'having', 'on'):
+                if node[clause]['f'] != 'nil':
+                    yield clause, node[clause]
+            for clause in ('sel', 'group'):
+                for feature in node[clause]:
+                    yield clause, feature
+            for term in node['order']:
+                yield 'order', term['x']
+
+
+def _subfeatures(feature):
+    yield feature
+    for arg in feature['args']:
+        yield from _subfeatures(arg)
 
 
 def silent(stmt):
-    """Reason why the property is silent on a statement (None = the statement belongs to the family).  Decided on the
-    abstract statement only."""
-    for path, node in g.walk(stmt):
-        if g.is_source(node) and node['t'] in ('query', 'join'):
-            for clause in ('where', 'having', 'on'):
-                pred = node[clause]
-                if pred['f'] == 'nil':
-                    continue
-                if pred['f'] in ('col', 'alias', 'lit'):
-                    return 'bare boolean column as predicate'
-                if clause != 'on' and len(_origins(pred)) > 1:
-                    return 'where/having predicate over two origins'
-        if g.is_feature(node) and node['f'] == 'op' and node['op'] in ('and', 'or') and len(_origins(node)) > 1:
-            return 'logical combination over two origins'
+    """Reason why the property is silent on a statement (None = the statement belongs to the family): the parser fails
+    on it for reasons unrelated to what is advertised (other properties own these defects).  Decided on the abstract
+    statement only."""
+    for clause, feature in _features(stmt):
+        if clause in ('where', 'having', 'on') and feature['f'] in ('col', 'alias', 'lit'):
+            return 'bare boolean column as predicate'  # Element has no .factors (push-down, C14)
+        if clause in ('where', 'having') and len(_origins(feature)) > 1:
+            return 'where/having predicate over two origins'  # push-down generates it before both origins exist (C14)
+        for sub in _subfeatures(feature):
+            if sub['f'] == 'op' and sub['op'] in ('and', 'or') and len(_origins(sub)) > 1:
+                return 'logical combination over two origins'  # Factors.merge (C06 / C14)
+            if sub['f'] == 'op' and sub['op'] == 'not' and sub['args'][0]['f'] == 'op' and \
+                    sub['args'][0]['op'] in g.NULLTEST:
+                return 'negated null test'  # the alchemy parser negates with python `not` (C06)
     return None
 
 
